@@ -29,10 +29,10 @@ var allKeys = []string{"a", "b", "ab", "k/1", "k/2", "zz", "a/", "k//1", "./a", 
 // the operation instances enumerated exhaustively
 func alphabet(backend string) []Op {
 	a := baseAlphabet()
-	if backend == "inmem" {
-		// a record written with an expiry that has already passed (miniredis would keep such a key for ever)
-		a = append(a, Op{K: "Put", Key: "a", Val: 2, Exp: -1}, Op{K: "PutMany", Keys: []string{"ab", "a"}, Val: 1, Exps: []int{0, -1}})
-	}
+	// records written with an expiry that has already passed (on Redis such a key lives for a millisecond: the
+	// backend view lets 5 ms of the server clock pass after such a write), and "never" expiries (year 2300 / 9999)
+	a = append(a, Op{K: "Put", Key: "a", Val: 2, Exp: -1}, Op{K: "PutMany", Keys: []string{"ab", "a"}, Val: 1, Exps: []int{0, -1}},
+		Op{K: "Put", Key: "ab", Val: 3, Exp: kvmodel.Never2}, Op{K: "Cas", Key: "a", Val: 1, Ver: "cur", Exp: kvmodel.Never1})
 	return a
 }
 
@@ -141,7 +141,7 @@ func (w *worker) backend(name string) *kvmodel.Backend {
 func TestCheck(t *testing.T) {
 	run := report.New("C03", "exploration")
 	defer run.Finish(t)
-	run.Rule("every sequence over 48 (Redis) / 50 (inmem) operation instances (incl. keys like \"a/\", \"k//1\", \"b/../a\" ) (Create/Get/GetMany/Put/PutMany/CasByVersion/Delete/ListKeys/WaitForVersionChange; nil/empty/non-empty values; with/without far expiry; repeated, missing and no keys in GetMany/PutMany; current/stale/made-up/caller-supplied versions) to the depth bound, plus seeded random sequences of length 30-200 over 6 keys; each backend is compared call by call with the contract model (error class, returned record, version relations, ListKeys as a set). distinct = distinct logical store states (key, presence, value, expiry, kind of last write) reached")
+	run.Rule("every sequence over 52 operation instances (incl. keys like \"a/\", \"k//1\", \"b/../a\" ) (Create/Get/GetMany/Put/PutMany/CasByVersion/Delete/ListKeys/WaitForVersionChange; nil/empty/non-empty values; with/without far expiry, expiries already past when written and 'never' expiries (years 2300 / 9999); on Redis the time to live the server holds for every written key is compared with the expiry that was given; repeated, missing and no keys in GetMany/PutMany; current/stale/made-up/caller-supplied versions) to the depth bound, plus seeded random sequences of length 30-200 over 6 keys; each backend is compared call by call with the contract model (error class, returned record, version relations, ListKeys as a set). distinct = distinct logical store states (key, presence, value, expiry, kind of last write) reached")
 	run.Assume("Redis backend runs against the in-process miniredis server; keys with a leading '/' and invalid glob patterns are not generated (contract silent)")
 	run.Assume("values are compared with bytes.Equal (nil == empty), expiries as instants, ListKeys as a set")
 
@@ -275,8 +275,13 @@ func randomOp(rng *rand.Rand) Op {
 		return ks
 	}
 	exp := func() int {
-		if rng.Intn(3) == 0 {
+		switch rng.Intn(12) {
+		case 0, 1, 2, 3:
 			return far + rng.Intn(5)
+		case 4:
+			return kvmodel.Never1 + rng.Intn(2)
+		case 5:
+			return -1 - rng.Intn(2)
 		}
 		return 0
 	}
